@@ -691,6 +691,9 @@ func (c *SpecCtx) resolveType(e ast.Expr) types.Type {
 		if t, ok := c.tparms[x.Name]; ok {
 			return t
 		}
+		if x.Name == "ref" {
+			return types.Typ[types.UnsafePointer]
+		}
 		if c.pkg != nil {
 			if obj := c.pkg.Scope().Lookup(x.Name); obj != nil {
 				if tn, ok := obj.(*types.TypeName); ok {
@@ -721,7 +724,26 @@ func (c *SpecCtx) resolveType(e ast.Expr) types.Type {
 		}
 	case *ast.ParenExpr:
 		return c.resolveType(x.X)
+	case *ast.IndexListExpr:
+		g := c.resolveType(x.X)
+		if n, ok := g.(*types.Named); ok && n.TypeParams() != nil {
+			var targs []types.Type
+			for _, ie := range x.Indices {
+				targs = append(targs, c.resolveType(ie))
+			}
+			if inst, err := types.Instantiate(nil, n, targs, false); err == nil {
+				return inst
+			}
+		}
 	case *ast.IndexExpr:
+		if id, ok := x.X.(*ast.Ident); ok && id.Name != "seq" && id.Name != "set" {
+			g := c.resolveType(x.X)
+			if n, ok := g.(*types.Named); ok && n.TypeParams() != nil {
+				if inst, err := types.Instantiate(nil, n, []types.Type{c.resolveType(x.Index)}, false); err == nil {
+					return inst
+				}
+			}
+		}
 		if id, ok := x.X.(*ast.Ident); ok && id.Name == "seq" {
 			el := c.resolveType(x.Index)
 			return seqType(el, c.ex.env.typeKey(el))
@@ -875,6 +897,26 @@ func (c *SpecCtx) evalCall(x *ast.CallExpr) *SV {
 			oldSt = c.st
 		}
 		return boolSV(And(Gt(ref, IntLit(0)), Not(Select(ex.allocArr(oldSt), ref)), Select(ex.allocArr(c.st), ref)))
+	case "onlyNew":
+		// onlyNew(x1, ..): every object allocated now was allocated in the pre-state or is one of the x_i
+		oldSt := c.old
+		if oldSt == nil {
+			oldSt = c.st
+		}
+		x0 := c.newBound("o", SRef)
+		var alts []*Term
+		alts = append(alts, Select(ex.allocArr(oldSt), x0))
+		for _, a := range x.Args {
+			av := c.eval(a)
+			var ref *Term
+			if av.V.Sl != nil {
+				ref = av.V.Sl.Arr
+			} else {
+				ref = ex.valTerm(av.V)
+			}
+			alts = append(alts, Eq(x0, ref))
+		}
+		return boolSV(Forall([]*Term{x0}, Implies(Select(ex.allocArr(c.st), x0), Or(alts...)), []*Term{Select(ex.allocArr(c.st), x0)}))
 	case "allocated":
 		a := c.eval(x.Args[0])
 		var ref *Term
@@ -919,6 +961,10 @@ func (c *SpecCtx) evalCall(x *ast.CallExpr) *SV {
 		}
 		ks, _ := vis.Sort.ArrayParts()
 		return boolSV(Select(vis, c.term(a, ks)))
+	case "anyType":
+		a := c.eval(x.Args[0])
+		f := ex.env.d.Func("any_type", SBool, SRef)
+		return boolSV(ex.env.d.Apply(f.Name, ex.valTerm(a.V)))
 	case "cast":
 		// cast(T, x): the same reference viewed at (pointer/interface) type T
 		t := c.resolveType(x.Args[0])
@@ -1050,6 +1096,44 @@ func (c *SpecCtx) evalQuant(kind string, x *ast.CallExpr) *SV {
 		}
 		return boolSV(Exists([]*Term{bound}, body))
 	}
+	// typed form with explicit triggers: forall(x, T, body, trig1, trig2, ...)
+	if len(x.Args) >= 4 {
+		if t := c.tryResolveType(x.Args[1]); t != nil {
+			if _, isInt := x.Args[1].(*ast.BasicLit); !isInt {
+				s := ex.env.scalarSort(t)
+				bv := c.newBound(id.Name, s)
+				inner := c.with(map[string]*SV{id.Name: {V: scalar(bv), T: t}})
+				body := inner.EvalBool(x.Args[2])
+				if pt := ex.structPtr(t); pt != nil {
+					guard := Eq(ex.dtype(bv), ex.typeTag(pt))
+					if kind == "forall" {
+						body = Implies(guard, body)
+					} else {
+						body = And(guard, body)
+					}
+				}
+				var pats [][]*Term
+				for _, pe := range x.Args[3:] {
+					// a trigger may be a multi-pattern: mp(t1, t2)
+					if ce, ok := pe.(*ast.CallExpr); ok {
+						if fid, ok := ce.Fun.(*ast.Ident); ok && fid.Name == "mp" {
+							var mpat []*Term
+							for _, a := range ce.Args {
+								mpat = append(mpat, inner.term(inner.eval(a), ""))
+							}
+							pats = append(pats, mpat)
+							continue
+						}
+					}
+					pats = append(pats, []*Term{inner.term(inner.eval(pe), "")})
+				}
+				if kind == "forall" {
+					return boolSV(Forall([]*Term{bv}, body, pats...))
+				}
+				return boolSV(Exists([]*Term{bv}, body))
+			}
+		}
+	}
 	switch len(x.Args) {
 	case 4:
 		is := ex.env.IntS()
@@ -1099,6 +1183,9 @@ func (c *SpecCtx) evalQuant(kind string, x *ast.CallExpr) *SV {
 		// typed quantifiers range over the whole sort (typing facts such as
 		// string lengths are global axioms, not guards)
 		ti := TTrue
+		if pt := ex.structPtr(t); pt != nil {
+			ti = Eq(ex.dtype(bv), ex.typeTag(pt))
+		}
 		if kind == "forall" {
 			return mk(bv, Implies(ti, body))
 		}
